@@ -94,6 +94,7 @@ void World::build_common()
 			ft.drop = e.getb("drop"); ft.dup = (int)e.geti("dup"); ft.extra_delay = (uint64_t)e.geti("delay_us");
 			ft.dup_delay = (uint64_t)e.geti("dup_delay_us"); ft.trunc = (int)e.geti("trunc", -1); ft.flipbit = (int)e.geti("flip", -1);
 			if (e.has("replace_hex")) { ft.has_replace = true; ft.replace = unhex(e.gets("replace_hex")); }
+			if (e.has("synth")) { const J &y = e["synth"]; ft.synth_size = (int)y.geti("size"); ft.synth_seq = (int)y.geti("seq"); ft.synth_frag = (int)y.geti("frag"); ft.synth_last = (int)y.geti("last"); ft.synth_key = (uint64_t)y.geti("key"); std::string en = y.gets("enc", "T"); ft.synth_enc = en.empty() ? 'T' : en[0]; }
 			if (e.has("redeliv")) for (auto &x : e["redeliv"].a) {
 				Redeliv rd; rd.delay = (uint64_t)x.geti("delay_us"); rd.idxor = (uint16_t)x.geti("idxor"); rd.recase = (uint64_t)x.geti("recase"); rd.altsrc = x.getb("altsrc");
 				ft.redeliv.push_back(rd);
@@ -277,6 +278,7 @@ J World::fate_json(const std::pair<int, uint64_t> &key, const Fate &f)
 	if (f.trunc >= 0) o.set("trunc", f.trunc);
 	if (f.flipbit >= 0) o.set("flip", f.flipbit);
 	if (f.has_replace) o.set("replace_hex", hexs(f.replace));
+	if (f.synth_size) { J y = J::obj(); y.set("size", f.synth_size); y.set("seq", f.synth_seq); y.set("frag", f.synth_frag); y.set("last", f.synth_last); y.set("key", (long long)f.synth_key); y.set("enc", std::string(1, f.synth_enc)); o.set("synth", y); }
 	if (!f.redeliv.empty()) {
 		J a = J::arr();
 		for (auto &r : f.redeliv) { J x = J::obj(); x.set("delay_us", (long long)r.delay); if (r.idxor) x.set("idxor", (int)r.idxor); if (r.recase) x.set("recase", (long long)r.recase); if (r.altsrc) x.set("altsrc", true); a.push(x); }
